@@ -55,6 +55,17 @@ CHECKS = {
         "so it holds whatever they do as long as both parsers use the same terminal definitions and rules, which is checked). The generator is the installed Lark 1.3.1; "
         "the shipped module embeds 1.1.2. Axioms: none.",
    tech="Rocq proof: simulation between LALR drivers by induction on fuel + reflective vm_compute check of the regenerated tables", ref="DESIGN.md §4 C16"),
+ "C17": dict(
+   cat="proof",
+   text="Theorems about the transformer model (Model/Parse.v): C17_total_partial (every term sequence ends in a unit, KeyError or ParseError: the model's outcome type lists "
+        "every way Unit.parse can end), C17_deterministic, C17_unknown_symbol (an unregistered symbol is a KeyError and nothing else). The registries are an argument of the "
+        "model, never a result. Per run: kernel-checked transformer model = Unit.parse on structured term sequences over registered, prefixed, named and unknown symbols; "
+        "on the implementation Unit.parse and Quantity.parse run (twice each, with the registered names/symbols compared before and after) on grammar-generated inputs, "
+        "token-level damage, random strings and arbitrary Unicode, numerals and exponents beyond int()'s digit limit and the float range, mixed-base prefixes with huge "
+        "exponents and rejected inputs whose earlier terms resolve through a prefix split.",
+   note=TB + "Partial by nature: character-level totality (regex scanner, CPython's int()/float() limits, which exceptions callbacks can raise) is not a theorem; it is "
+        "established by running the implementation. The LALR driver is the model of C16. Axioms: none.",
+   tech="Rocq proof over the transformer model (case analysis) + vm_compute correspondence + exception-class fuzzing of the implementation", ref="DESIGN.md §4 C17"),
  "C18": dict(
    text="Theorems over the reals for every base b > 0 (b <> 1), prefix value p <> 0, power ratio k <> 0 and reference r > 0: C18_level_definition "
         "(level = (k/p) log_b(q/r)), C18_quantify_definition, C18_roundtrip_quantity, C18_roundtrip_level, C18_level_equals_quantity (a level equals a "
